@@ -15,7 +15,8 @@ import (
 
 // C08 — one SSO request, one outcome; rejected requests leave no trace.
 
-var c08Bindings = []string{spsim.BindPost, spsim.BindRedirect, spsim.BindArtifact, spsim.BindPAOS, "urn:example:binding:unknown", "HTTP-POST"}
+var c08Bindings = []string{spsim.BindPost, spsim.BindRedirect, spsim.BindArtifact, spsim.BindPAOS, "urn:example:binding:unknown", "HTTP-POST",
+	spsim.BindPost + " ", " " + spsim.BindRedirect, "\n\t" + spsim.BindPost + "\n", strings.ToLower(spsim.BindPost), spsim.BindRedirect + "/"}
 
 // randACS draws a consumer list over the given bindings (any index / isDefault mix, unique locations).
 func randACS(rng *rand.Rand, host string, bindings []string, maxN int) []spsim.ACS {
